@@ -131,7 +131,7 @@ static std::string handle(const std::string& cmd, const std::string& args) {
     for (const FastaSeq& f : r) out += " " + hv::hex_encode(f.header) + " " + hv::hex_encode(f.seq);
     return out;
   }
-  if (cmd == "cifcount" || cmd == "cifval") {
+  if (cmd == "cifcount" || cmd == "cifval" || cmd == "cifdrop") {
     // structure-aware corruption of ONE value of a parsed CIF file, then the conversions of the property
     // cifcount <path> -> number of columns (a pair counts as a one-row column)
     // cifval <kind> <path> <column> <row> <value-index>
@@ -154,6 +154,16 @@ static std::string handle(const std::string& cmd, const std::string& args) {
       }
       return std::to_string(cols.size()) + " " + flags;
     }
+    if (cmd == "cifdrop") {   // cifdrop <kind> <path> <column>: the column (tag and values) or pair is removed
+      auto& pr = cols.at((size_t) to_ll(w.at(2)) % cols.size());
+      if (pr.second < 0) {
+        pr.first->erase();
+      } else {
+        cif::Loop& loop = pr.first->loop;
+        if (loop.tags.size() <= 1) { pr.first->erase(); }
+        else loop.remove_column_at((size_t) pr.second);
+      }
+    }
     static const char* const vals[] = {"?", ".", "0", "-1", "1", "2", "2147483647", "-2147483648", "99999999999999999999",
       "4294967296", "1e308", "-1e-320", "abc", "'a b'", "''", "0.5", "-0.0", ";text\n;", "A", "1555", "1_555", "x,y,z", "1-2",
       "(1-3)(4,5)", "(X0)(1-60)", "999", "-999", "1.5(3)", "nan", "inf", "P 1", "H", "yes", "n", "1,2,,3", "-", "+", "1e", "0x10",
@@ -161,8 +171,10 @@ static std::string handle(const std::string& cmd, const std::string& args) {
     const int nvals = sizeof(vals) / sizeof(vals[0]);
     const std::string& kind = w.at(0);
     auto& pr = cols.at((size_t) to_ll(w.at(2)) % cols.size());
-    std::string val = vals[to_ll(w.at(4)) % nvals];
-    if (pr.second < 0) {
+    std::string val = cmd == "cifval" ? vals[to_ll(w.at(4)) % nvals] : "";
+    if (cmd == "cifdrop") {
+      // already applied above
+    } else if (pr.second < 0) {
       pr.first->pair[1] = val;
     } else {
       cif::Loop& loop = pr.first->loop;
